@@ -154,7 +154,7 @@ func runC06(c *Ctx) {
 					c.Fail(rEdge, k, p.Pos(ts.Pos()), "instruction type ast."+tn+" has a nested instruction list but no arm in markFuncReachable_ins: calls inside it are not followed")
 					continue
 				}
-				c.Check(rangesAndRecurses(info, a.Body, tn, fn, "markFuncReachable_ins"), rEdge, k, p.Pos(a.Clause.Pos()), "nested list is walked recursively", "calls inside "+k+" are not followed: functions only called there are stripped")
+				c.Check(rangesAndRecurses(info, a.Body, tn, fn, "markFuncReachable_ins", listWalkers(ws, "markFuncReachable_ins")), rEdge, k, p.Pos(a.Clause.Pos()), "nested list is walked recursively", "calls inside "+k+" are not followed: functions only called there are stripped")
 			}
 			c.Min(rEdge, "nested instruction-list fields", nb, 4)
 			for _, k := range funcRefIns {
